@@ -246,7 +246,7 @@ def run_check(prop, tier, seed, replay=None):
         samples=samples + d_samples,
         programs=len(cases), disagreements_checked=len(corr_breaks) + len(prop_fails),
         correspondence_breaks=len(corr_breaks), property_failures=len(prop_fails),
-        outside_model=unsupported,
+        outside_model=unsupported, compared_with_specification=sum(1 for x in spec if x != '-'),
         known_findings_hit=sorted(set(known_lines)),
         distribution=dict(hist.most_common(60)), result_kinds=dict(kinds),
         profiles=list(prop.profiles), repo_head=lib.git_head(lib.REPO),
